@@ -713,7 +713,7 @@ func runC12(res *Result, rng *RNG, tier string, outDir string) {
 // ---------------- C13: Reset gives a clean authorizer ----------------
 
 func runC13(res *Result, rng *RNG, tier string, outDir string) {
-	res.Rule = "histories of 2-5 rounds (add random facts/rules/checks/policies, then Authorize and/or Query, then Reset) on ONE authorizer, rounds of every outcome class (success, denied, no match, failed checks, run-limit error); the observations of the last round are compared with the same round on a freshly created authorizer for the same token. Non-trivial = the earlier rounds added at least one fact or rule; distinct by canonical history text."
+	res.Rule = "histories of 2-5 rounds (add random facts/rules/checks/policies with Add* calls or, for a third of the rounds, as a snapshot loaded with LoadPolicies; then Authorize and/or Query, then Reset) on ONE authorizer, rounds of every outcome class (success, denied, no match, failed checks, run-limit error); the observations of the last round are compared with the same round on a freshly created authorizer for the same token. Non-trivial = the earlier rounds added at least one fact or rule; distinct by canonical history text."
 	n := 200
 	if tier == "thorough" {
 		n = 4000
@@ -727,6 +727,7 @@ func runC13(res *Result, rng *RNG, tier string, outDir string) {
 		if r.Chance(15) {
 			sc.MaxF = 3 + r.Intn(10)
 		}
+		tokForLoad, _ := buildToken(sc.Token, r.Fork())
 		round := func() []azOp {
 			ops := g.authorizerOps()
 			// facts that token checks are waiting for: leak candidates
@@ -749,6 +750,25 @@ func runC13(res *Result, rng *RNG, tier string, outDir string) {
 					}
 				}
 			}
+			// sometimes the round's content arrives as a snapshot (LoadPolicies) instead of Add* calls
+			if r.Chance(35) && tokForLoad != nil {
+				if src, err := newAuthorizer(tokForLoad, 1000, 100, entryAuthorizerFor); err == nil {
+					var bs []byte
+					var serr error
+					func() {
+						defer func() {
+							if p := recover(); p != nil {
+								serr = fmt.Errorf("panic: %v", p)
+							}
+						}()
+						applyContent(src, ops)
+						bs, serr = src.SerializePolicies()
+					}()
+					if serr == nil {
+						ops = []azOp{{Kind: "load", Load: ops, LoadBytes: bs}}
+					}
+				}
+			}
 			switch r.Intn(4) {
 			case 0:
 				ops = append(ops, azOp{Kind: "query", Rule: g.pg.query(false)})
@@ -768,7 +788,7 @@ func runC13(res *Result, rng *RNG, tier string, outDir string) {
 			last = round()
 			if k < nr-1 {
 				for _, o := range last {
-					if o.Kind == "fact" || o.Kind == "rule" {
+					if o.Kind == "fact" || o.Kind == "rule" || o.Kind == "load" {
 						prior++
 					}
 				}
